@@ -17,7 +17,8 @@ Record sess := {
   s_started : nat;               (* logical time of the prepare *)
   s_threshold : nat;
   s_participants : list N;       (* identifiers, as listed in the prepare message *)
-  s_contributed : list N }.      (* identifiers whose share and vector are held (own first) *)
+  s_contributed : list N;        (* identifiers whose share and vector are held (own first) *)
+  s_dealt : bool }.              (* the own polynomial was dealt: shares for the participants exist *)
 
 Record pstate := {
   p_id : N;                      (* this instance's identifier *)
@@ -48,7 +49,9 @@ Definition add_id (i : N) (l : list N) : list N := if existsb (N.eqb i) l then l
 
 Inductive sevent :=
 | SPrepare (a : string) (threshold : nat) (parts : list N)
-| SExecute (a : string) (ok : bool)              (* ok: every swap this instance initiates succeeds *)
+| SExecute (a : string) (swapped : list N) (ok : bool)
+    (* the instance swaps with the higher participants in no fixed order and stops at the first failure:
+       ok = every swap it initiates succeeds; swapped = the ones completed before a failure *)
 | SContribute (a : string) (sender : N) (valid : bool)   (* valid: share and vector pass the checks *)
 | SCommit (a : string) (store_ok : bool)         (* store_ok: the wallet accepts the new account *)
 | SAbort (a : string)
@@ -61,32 +64,36 @@ Definition sstep_ev (p : pstate) (e : sevent) : serr * pstate :=
       match g with
       | Some _ => (EInProgress, p1)
       | None =>
-          let s := {| s_started := p_now p1; s_threshold := thr; s_participants := parts; s_contributed := [p_id p1] |} in
-          (* a threshold of 0 makes the own contribution fail AFTER the entry was created *)
-          (if (thr =? 0)%nat then EOther else EOk, with_sessions p1 (sput a s (p_sessions p1)))
+          (* a threshold of 0 makes the own contribution fail AFTER the entry was created: the entry
+             stays, holding no share at all *)
+          let bad := (thr =? 0)%nat in
+          let s := {| s_started := p_now p1; s_threshold := thr; s_participants := parts;
+                      s_contributed := if bad then [] else [p_id p1]; s_dealt := negb bad |} in
+          (if bad then EOther else EOk, with_sessions p1 (sput a s (p_sessions p1)))
       end
-  | SExecute a ok =>
+  | SExecute a swapped ok =>
       let '(g, p1) := get_generation p a in
       match g with
       | None => (ENotInProgress, p1)
       | Some s =>
-          let higher := filter (fun i => N.ltb (p_id p1) i) (s_participants s) in
+          let higher := if s_dealt s then filter (fun i => N.ltb (p_id p1) i) (s_participants s) else [] in
           (* a share already held from a higher participant (e.g. a second execute) is a duplicate *)
-          if existsb (fun i => existsb (N.eqb i) (s_contributed s)) higher then (EOther, p1) else
-          if ok then
-            let s' := {| s_started := s_started s; s_threshold := s_threshold s; s_participants := s_participants s;
-                         s_contributed := fold_left (fun l i => add_id i l) higher (s_contributed s) |} in
-            (EOk, with_sessions p1 (sput a s' (p_sessions p1)))
-          else (EOther, p1)
+          let dup := existsb (fun i => existsb (N.eqb i) (s_contributed s)) higher in
+          let got := if ok && negb dup then higher
+                     else filter (fun i => existsb (N.eqb i) higher && negb (existsb (N.eqb i) (s_contributed s))) swapped in
+          let s' := {| s_started := s_started s; s_threshold := s_threshold s; s_participants := s_participants s;
+                       s_contributed := fold_left (fun l i => add_id i l) got (s_contributed s); s_dealt := s_dealt s |} in
+          (if ok && negb dup then EOk else EOther, with_sessions p1 (sput a s' (p_sessions p1)))
       end
   | SContribute a sender valid =>
       let '(g, p1) := get_generation p a in
       match g with
       | None => (ENotFound, p1)
       | Some s =>
-          if valid then
+          (* valid includes: the vector has exactly threshold entries; none passes for threshold 0 *)
+          if valid && (0 <? s_threshold s)%nat then
             let s' := {| s_started := s_started s; s_threshold := s_threshold s; s_participants := s_participants s;
-                         s_contributed := add_id sender (s_contributed s) |} in
+                         s_contributed := add_id sender (s_contributed s); s_dealt := s_dealt s |} in
             (EOk, with_sessions p1 (sput a s' (p_sessions p1)))
           else (EOther, p1)
       end
